@@ -54,6 +54,10 @@ func Bubble(t *testing.T, f func()) (res BubbleResult) {
 	// becoming quiescent would otherwise run until the test binary's timeout
 	wd := time.AfterFunc(WatchdogLimit, func() {
 		fmt.Fprintln(os.Stderr, "WATCHDOG: a single bubble ran longer than", WatchdogLimit, "of real time (livelock or runaway loop)")
+		if os.Getenv("VERIF_WATCHDOG_DUMP") != "" {
+			buf := make([]byte, 4<<20)
+			os.Stderr.Write(buf[:runtime.Stack(buf, true)])
+		}
 		os.Exit(3)
 	})
 	defer wd.Stop()
